@@ -26,7 +26,7 @@ import (
 	"verif/reg"
 )
 
-const verifDir = "/verif"
+var verifDir = "/verif"
 
 var repoDir = "/repo"
 
@@ -41,6 +41,8 @@ func env() []string {
 	}
 	return append(out, "GOFLAGS=-mod=mod", "GOPROXY=off")
 }
+
+func fileExists(p string) bool { _, err := os.Stat(p); return err == nil }
 
 func fatal(format string, a ...any) {
 	fmt.Fprintf(os.Stderr, "vcheck: engine error: "+format+"\n", a...)
@@ -333,6 +335,11 @@ func main() {
 	}
 	if r := os.Getenv("VERIF_REPO"); r != "" {
 		repoDir = r
+	}
+	if exe, err := os.Executable(); err == nil {
+		if d := filepath.Dir(filepath.Dir(exe)); fileExists(filepath.Join(d, "harness")) {
+			verifDir = d
+		}
 	}
 	tier := os.Getenv("VERIF_TIER")
 	if tier == "" {
